@@ -137,6 +137,7 @@ def run(facts, rep, tier):
     bytesem(F, rep)
     everypath(F, rep, fm)
     strdelim(F, rep)
+    blockhead(F, rep, fm)
 
     # 6 LINESEP
     linesep(F, rep, fm)
@@ -1073,3 +1074,74 @@ def strdelim(F, rep):
                         "the String arm of format_literal %s: escape_string only protects `\"`, so any other "
                         "delimiter lets a quote inside the value end the literal early (or changes what an escape "
                         "means)" % why, file=fl.file, line=(bad[0][0] if bad else sw["ln"]), fn=fl.path))
+
+
+BLOCK_OPENERS = (":", "=>")
+
+
+def blockhead(F, rep, fm):
+    """BLOCKHEAD - the parser accepts `Newline Indent` only after `:` (declarations, statements) or `=>` (match
+    arms), so every `indent()` of the printer is preceded, on every path, by a line whose last written text ends in
+    one of the two. An indented block after anything else does not parse again."""
+    from engines import resolve_str
+    n = 0
+
+    def last_writes(f, b0, preds):
+        seen, todo, out = set(), list(preds.get(b0, ())), []
+        while todo:
+            b = todo.pop()
+            if b in seen:
+                continue
+            seen.add(b)
+            t = f.term(b)
+            if t["t"] == "call":
+                cn = callee_name(t) or ""
+                if cn.startswith("incan::format::"):
+                    kind = cn.split("::")[-1]
+                    if kind in ("write", "writeln"):
+                        out.append((b, kind, resolve_str(f, t["args"][1]) if len(t["args"]) > 1 else None))
+                        continue
+                    if kind == "newline" or "Formatter::" in cn:
+                        out.append((b, kind, None))
+                        continue
+            if b == 0:
+                out.append((b, "entry", None))
+            todo += list(preds.get(b, ()))
+        return out
+
+    for p in sorted(fm):
+        f = F.fns[p]
+        if not p.startswith("incan::format::formatter"):
+            continue
+        preds = {}
+        for bi, ss in enumerate(f.succs()):
+            for s2 in ss:
+                preds.setdefault(s2, set()).add(bi)
+        per = 0
+        for bi, t in f.calls():
+            if not (callee_name(t) or "").endswith("FormatWriter::indent"):
+                continue
+            n += 1
+            per += 1
+            bad = None
+            for (b, kind, txt) in last_writes(f, bi, preds):
+                if kind == "writeln":
+                    good = txt is not None and txt.rstrip().endswith(BLOCK_OPENERS)
+                elif kind == "newline":
+                    inner = last_writes(f, b, preds)
+                    good = bool(inner) and all(k2 == "write" and t2 is not None and t2.rstrip().endswith(BLOCK_OPENERS)
+                                               for _, k2, t2 in inner)
+                else:
+                    good = False
+                if not good:
+                    bad = (kind, txt)
+            fn = p.split("::")[-1]
+            inst = "%s#%d" % (fn, per)
+            rep.oblige("BLOCKHEAD", inst, bad is None)
+            if bad is not None:
+                rep.add(Finding("BLOCKHEAD", "BLOCKHEAD|%s" % inst,
+                                "%s opens an indented block after a line that does not end in `:` or `=>` (last thing "
+                                "written: %s): the parser accepts an indented block only after one of those, so the "
+                                "formatted file does not parse" % (fn, bad[1] if bad[1] is not None else bad[0]),
+                                file=f.file, line=t.get("ln"), fn=p))
+    rep.floor("BLOCKHEAD", "indent() calls in the formatter", n, 12)
